@@ -58,6 +58,21 @@ class ConstEval:
         if h == "un" and t[1] == "!":
             a = self.ev(t[2], depth)
             return None if not isinstance(a, int) else (~a) & ((1 << 64) - 1)
+        if h == "un" and t[1] == "-":
+            a = self.ev(t[2], depth)
+            return None if a is None else -a
+        if h == "ite":
+            c = t[1]
+            cv = None
+            if c[0] == "op" and c[1] in ("<", "<=", ">", ">=", "==", "!="):
+                a, b = self.ev(c[2], depth), self.ev(c[3], depth)
+                if a is not None and b is not None:
+                    cv = {"<": a < b, "<=": a <= b, ">": a > b, ">=": a >= b, "==": a == b, "!=": a != b}[c[1]]
+            elif c[0] == "bool":
+                cv = c[1]
+            return None if cv is None else self.ev(t[2] if cv else t[3], depth)
+        if h == "call" and t[1].split("::")[-1] in ("unwrap", "try_into", "try_from", "expect", "into", "from") and len(t[2]) >= 1:
+            return self.ev(t[2][0], depth)
         if h == "op":
             a = self.ev(t[2], depth)
             b = self.ev(t[3], depth)
@@ -116,6 +131,14 @@ def eval_pieces(CE, t, env):
             return None
         return eval_pieces(CE, t[2] if c else t[3], env)
     return CE.ev(fsubst(t, env))
+
+
+def rewrite_where(t, pred, new):
+    if not isinstance(t, tuple) or not t:
+        return t
+    if isinstance(t[0], str) and pred(t):
+        return new
+    return tuple(rewrite_where(x, pred, new) if isinstance(x, tuple) else x for x in t)
 
 
 def eval_cond(CE, c, env):
@@ -356,6 +379,35 @@ def geometry_rule(ctx, rr, with_c, sink=None):
                     worst_big = (v, n)
             if sink is not None:
                 sink[nm] = {"worst_all": worst_all, "worst_big": worst_big, "sharded": sharded, "span": b.span}
+            # --- the geometry itself, evaluated: cells per key (l + 2) * 2^log2_seg_size / size for large structures
+            # (the segment-size estimate enters here: a segment as large as the whole graph leaves three segments of it)
+            if "l" in assigns and "log2_seg_size" in assigns:
+                seg_t = assigns["log2_seg_size"][-1][0]
+                l_t = assigns["l"][-1][0]
+                worst_v = (0, None)
+                n_eval = 0
+                for n in (10 ** 6, 3 * 10 ** 6, 10 ** 7, 2 * 10 ** 7, 2 * 10 ** 7 + 1, 5 * 10 ** 7, 10 ** 8, 3 * 10 ** 8):
+                    env = {"n": ("int", n), "max_shard": ("int", n), "aux": ("int", 1 << 64)}
+                    sv = eval_pieces(CE, seg_t, env)
+                    if sv is None:
+                        continue
+                    lt2 = rewrite_where(l_t, lambda x: x[0] == "field" and x[2] == "log2_seg_size", ("int", int(sv)))
+                    lv = eval_pieces(CE, lt2, env)
+                    if lv is None:
+                        continue
+                    n_eval += 1
+                    ratio = ((int(lv) + 2) << int(sv)) / n
+                    if ratio > worst_v[0]:
+                        worst_v = (ratio, n, int(sv), int(lv))
+                rr.instances += 1
+                key = "%s:cells-per-key<=1.135-from-10^6-keys" % nm
+                if n_eval == 0:
+                    rr.ob(True, key=key, nontrivial=False)
+                else:
+                    okv = worst_v[0] <= 1.135 + 1e-9
+                    rr.ob(okv, key=key, sample={"impl": nm, "max cells per key": worst_v[0], "at size": worst_v[1], "evaluated sizes": n_eval})
+                    if not okv:
+                        rr.violate(key, "%s: a graph of %d keys gets log2_seg_size = %d and l = %d, i.e. %.3f cells per key, above the documented 1.135 (the segment-size estimate is out of proportion with the graph)" % (ref, worst_v[1], worst_v[2], worst_v[3], worst_v[0]), b.span)
             key = "%s:c<=1.23" % nm
             if unevaluated > len(pts) // 2:
                 rr.violate("%s:c-evaluable" % nm, "%s: could not evaluate the expansion factor c (%s) on the sample of key counts" % (ref, tshow(c_t)[:200]), b.span)
@@ -680,3 +732,78 @@ def r11_9(ctx, rr):
             rr.ob(ok, key=key, sample={"impl": nm, "c": prod / K, "balance_tolerance": K, "product": prod, "at_n": at})
             if not ok:
                 rr.violate(key, "%s: shards are sized for the largest one and try_seed accepts a largest shard of up to %.4g times the average: the space reaches %.4f * %.4g = %.5f n b at n = %s, above the documented %s" % (nm, K, prod / K, K, prod, at, lab.split("-")[0]), F.loc(node))
+
+
+@rule("R11.10", props=["C11", "C07"], floor=8, title="the cell width of a function is the bit length of its largest value (evaluated: 1 -> 1, 3 -> 2, 255 -> 8, 256 -> 9 ...), the quantity the space bound n*b is stated in")
+def r11_10(ctx, rr):
+    """try_seed derives the width of the cells from the maximum value seen. One more bit for maxima of the form
+    2^b - 1 (the `floor(lg(max + 1)) + 1` slip for a ceiling) keeps every answer right and costs n more bits per bit of
+    width: 2.3 n b instead of 1.13 n b for one-bit values."""
+    from r_ef import _ieval
+    F = ctx.F()
+    bs = [b for b in F.fns() if b.file.endswith("func/vbuilder.rs") and b.name == "try_seed"]
+    if len(bs) != 1:
+        raise AnchorMissing("VBuilder::try_seed not found")
+    b = bs[0]
+    # the width derived from the values: the quantity whose excess over the requested width is ValueTooLarge
+    cands = []
+
+    from r_guards import simple_env
+    T = simple_env(F, b)
+    for n in walk(b.body):
+        if n.get("k") == "If" and any("ValueTooLarge" in (F.defpath(x) or "") for x in walk(n["th"]) if x.get("k") == "Path"):
+            c = n["c"]
+            if c.get("k") == "Binary" and c["op"] in (">", "<", ">=", "<="):
+                for side in (c["l"], c["r"]):
+                    t = T.term(side)
+                    if mentions(t, lambda x: x[0] == "call"):
+                        cands.append((n, t))
+    if len(cands) != 1:
+        raise AnchorMissing("try_seed: expected one test of the derived width against the requested one before ValueTooLarge, found %d" % len(cands))
+    node, t = cands[0]
+    vars_ = sorted(set(x for x in subterms(t) if x[0] == "var"), key=repr)
+    if len(vars_) != 1:
+        raise AnchorMissing("try_seed: the derived width `%s` does not depend on exactly one quantity" % tshow(t)[:80])
+    mv = vars_[0]
+
+    def ev(x, val):
+        if x == mv:
+            return val
+        if x[0] == "call":
+            nm = x[1].split("::")[-1]
+            args = [ev(a, val) for a in x[2]]
+            if None in args:
+                return None
+            if nm in ("upcast", "cast", "into", "from", "to_usize", "downcast") and len(args) == 1:
+                return args[0]
+            if nm == "len" and len(args) == 1:
+                return int(args[0]).bit_length()      # UnsignedInt::len: number of bits needed (0 for 0)
+            if nm == "ilog2" and len(args) == 1:
+                return None if args[0] <= 0 else int(args[0]).bit_length() - 1
+            if nm == "leading_zeros" and len(args) == 1:
+                return 64 - int(args[0]).bit_length()
+            if nm == "next_power_of_two" and len(args) == 1:
+                return 1 if args[0] <= 1 else 1 << (int(args[0]) - 1).bit_length()
+            if nm == "trailing_zeros" and len(args) == 1:
+                return (int(args[0]) & -int(args[0])).bit_length() - 1 if args[0] else 64
+            return None
+        if x[0] == "cast":
+            return ev(x[2], val)
+        if x[0] == "op" and len(x) == 4:
+            a, c = ev(x[2], val), ev(x[3], val)
+            if a is None or c is None:
+                return None
+            return _ieval(("op", x[1], ("int", a), ("int", c)), {})
+        if x[0] == "def" and x[1].endswith("BITS"):
+            return 64
+        return _ieval(x, {})
+    reported = []
+    for val in (1, 2, 3, 4, 7, 8, 255, 256, (1 << 32) - 1, 1 << 32):
+        got = ev(t, val)
+        rr.instances += 1
+        want = int(val).bit_length()
+        key = "try_seed:value-width(%d)" % val
+        rr.ob(got == want, key=key, sample={"width expression": tshow(t)[:100], "max value": val, "width": got, "bit length": want})
+        if got != want and not reported:
+            reported.append(val)
+            rr.violate("try_seed:value-width", "try_seed derives the cell width `%s`, which is %s for a largest value of %d; its bit length is %d: every cell carries the difference, and the space bound n*b (b the bit length of the largest value) is exceeded by that factor" % (tshow(t)[:80], got, val, want), F.loc(node))
